@@ -886,7 +886,9 @@ impl EdnsData {
     }
 
     pub fn get_cookie(&self) -> Option<(&[u8], Option<&[u8]>)> {
+        /* A client cookie is exactly 8 octets (RFC7873), anything shorter is not a cookie. */
         self.get_opt(&EDNS_COOKIE)
+            .filter(|opt| opt.data.len() >= 8)
             .map(|opt| (&opt.data[..8], opt.data.get(8..)))
     }
 
@@ -903,7 +905,8 @@ impl EdnsData {
     }
 
     pub fn get_extended_dns_error(&self) -> Option<(EdeCode, String)> {
-        self.get_opt(&EDNS_EDE).map(|opt| {
+        /* The info code is two octets (RFC8914), ignore anything shorter. */
+        self.get_opt(&EDNS_EDE).filter(|opt| opt.data.len() >= 2).map(|opt| {
             (
                 EdeCode(u16::from_be_bytes([opt.data[0], opt.data[1]])),
                 String::from_utf8_lossy(&opt.data[2..]).into_owned(),
